@@ -4,7 +4,7 @@
    (acceptance implies representability), rejections are always the library's own
    error class, and an accepted value is read back unchanged. *)
 From Coq Require Import ZArith List Bool.
-From OV Require Import Base.Bytes Base.Wire Generated Model.Str Model.Codec Proofs.BytesProofs Proofs.AtomicProofs Proofs.CodecProps.
+From OV Require Import Base.Bytes Base.Wire Generated Model.Str Model.Codec Proofs.BytesProofs Proofs.AtomicProofs Proofs.CodecProps Proofs.FlatProofs Proofs.FlatEncodeProofs.
 Import ListNotations.
 Open Scope Z_scope.
 
@@ -37,3 +37,39 @@ Theorem C04_out_of_range_rejected :
   /\ raw_of (VInt (-128)) 8 BInt (Some Enc1C) true = Err ERej /\ raw_of (VInt 128) 8 BInt (Some EncSM) true = Err ERej.
 Proof. vm_compute. repeat split. Qed.
 Print Assumptions C04_out_of_range_rejected.
+
+(* ---------- message level (Proofs/FlatEncodeProofs.v), about the model's entry points ---------- *)
+(* for every message which is a sequence of any number of CODED-CONST / VALUE parameters with implicit positions
+   over STANDARD-LENGTH types (no floats, no bit mask, IDENTICAL compu method) and EVERY value handed to the encoder
+   -- a dictionary with missing, unknown, ill-typed or out-of-range entries, or no dictionary at all -- the outcome is
+   a PDU or the library's own error class: no foreign exception, no fuel exhaustion *)
+Theorem C04_flat_rejections_are_library_errors : forall fl v,
+  (forall x, In x fl -> fnf x) -> enc_outcome_ok (encode_msg (map mkp fl) None v).
+Proof. exact flat_encode_outcome. Qed.
+Print Assumptions C04_flat_rejections_are_library_errors.
+
+(* the property itself for messages of signed (2C, 1C, SM) and unsigned integer parameters of any bit length and
+   byte order: EVERY value is either rejected with the library's error, or it is a dictionary and the PDU has the
+   described length and decodes to exactly the constants and the values the caller gave -- nothing is wrapped,
+   truncated, padded or dropped *)
+Theorem C04_flat_accept_or_reject : forall fl v,
+  (forall x, In x fl -> fnum x) -> NoDup (map fname fl) ->
+  encode_msg (map mkp fl) None v = Err ERej \/
+  exists msg kv, v = VDict kv /\ encode_msg (map mkp fl) None v = Ok (msg, false) /\
+                 decode_msg (map mkp fl) msg = Ok (VDict (map (fun x => (fname x, given x kv)) fl)) /\
+                 blen msg = fold_right (fun x a => fbytes x + a) 0 fl.
+Proof. exact flat_accept_or_reject. Qed.
+Print Assumptions C04_flat_accept_or_reject.
+
+(* premises satisfiable; acceptance and each kind of rejection occur *)
+Example C04_flat_example :
+  let fl := [mkF [115] 8 BUint None true BUint (Some (VInt 34)); mkF [97] 12 BInt (Some Enc2C) false BInt None] in
+  (forall x, In x fl -> fnum x) /\ NoDup (map fname fl) /\
+  encode_msg (map mkp fl) None (VDict [([97], VInt (-2))]) = Ok ([34; 254; 15], false) /\
+  encode_msg (map mkp fl) None (VDict [([97], VInt 2048)]) = Err ERej /\
+  encode_msg (map mkp fl) None (VDict [([97], VStr [65])]) = Err ERej /\
+  encode_msg (map mkp fl) None (VDict []) = Err ERej /\
+  encode_msg (map mkp fl) None (VDict [([97], VInt 1); ([98], VInt 1)]) = Err ERej /\
+  encode_msg (map mkp fl) None (VInt 5) = Err ERej.
+Proof. exact accept_or_reject_example. Qed.
+Print Assumptions C04_flat_example.
